@@ -143,7 +143,13 @@ Proof.
   all: step_cases H.
   all: try discriminate Ep.
   all: try (rewrite Ep in *).
-  all: repeat match goal with E : k_api (k s) = _ |- _ => rewrite E in Rn end; try contradiction.
-  all: idtac.
-  Show.
-Abort.
+  all: repeat match goal with E : k_api (k _) = _ |- _ => rewrite E in Rn end; try contradiction.
+  all: try solve [left; reflexivity].
+  all: try exact I.
+  all: try solve [right; do 3 eexists; split; [reflexivity|]; apply packet_eqb_eq; assumption].
+  all: cbn [k set_k k_cs k_api k_set_pending] in *.
+  all: try solve [simp_proj; assumption].
+  all: try solve [exfalso; unfold is_connected in *; destruct (k_cs (k s)); cbn in *; try discriminate; congruence].
+  all: try solve [injection Ep as <- <-; right; do 3 eexists; split; [reflexivity|]; apply packet_eqb_eq; assumption].
+  all: try reflexivity.
+Qed.
